@@ -285,3 +285,170 @@ Proof.
       rewrite read_line_nl by (pose proof (count_lines_pos r); lia). exact IH.
     + rewrite (count_lines_other c r Hc). rewrite read_line_other; [exact IH|exact Hc|pose proof (count_lines_pos r); lia].
 Qed.
+
+(* ---------- line 0 is the trimmed first line ---------- *)
+Fixpoint first_line (s : str) : str :=
+  match s with [] => [] | c :: r => if c =? 10 then [] else c :: first_line r end.
+(* the first line with its newline *)
+Fixpoint raw0 (s : str) : str :=
+  match s with [] => [] | c :: r => if c =? 10 then [10] else c :: raw0 r end.
+Fixpoint rest0 (s : str) : str :=
+  match s with [] => [] | c :: r => if c =? 10 then r else rest0 r end.
+
+Lemma raw0_rest0 s : s = raw0 s ++ rest0 s.
+Proof. induction s as [|c r IH]; cbn; [reflexivity|]. destruct (c =? 10) eqn:E; cbn; [apply Z.eqb_eq in E; subst; reflexivity|]. f_equal. exact IH. Qed.
+Lemma raw0_first_line s : raw0 s = first_line s \/ raw0 s = first_line s ++ [10].
+Proof.
+  induction s as [|c r IH]; cbn; [auto|]. destruct (c =? 10); [auto|]. destruct IH as [-> | ->]; auto.
+Qed.
+Lemma nl_from_head s off : exists tl, nl_from s off = (off + byte_len (first_line s)) :: tl.
+Proof.
+  revert off. induction s as [|c r IH]; intro off; cbn.
+  - exists []. f_equal. lia.
+  - destruct (c =? 10); cbn.
+    + eexists. f_equal. lia.
+    + destruct (IH (off + utf8_len c)) as (tl & E). exists tl. rewrite E. f_equal. lia.
+Qed.
+Lemma raw0_len s : byte_len (raw0 s) = Z.min (byte_len (first_line s) + 1) (byte_len s).
+Proof.
+  induction s as [|c r IH]; cbn; [lia|]. destruct (c =? 10) eqn:E; cbn.
+  - apply Z.eqb_eq in E. subst. change (utf8_len 10) with 1. pose proof (byte_len_nonneg r). lia.
+  - rewrite IH. pose proof (utf8_len_pos c). lia.
+Qed.
+
+Lemma sub_from_empty s off a b : b <= off -> sub_from s off a b = [].
+Proof.
+  revert off. induction s as [|c r IH]; intros off H; cbn; [reflexivity|].
+  replace (off <? b) with false by (symmetry; apply Z.ltb_ge; lia). rewrite andb_false_r.
+  apply IH. pose proof (utf8_len_pos c). lia.
+Qed.
+Lemma sub_from_prefix p q off a : a <= off -> sub_from (p ++ q) off a (off + byte_len p) = p.
+Proof.
+  revert off. induction p as [|c r IH]; intros off H; cbn [app byte_len sub_from].
+  - apply sub_from_empty. lia.
+  - pose proof (utf8_len_pos c). pose proof (byte_len_nonneg r).
+    replace (a <=? off) with true by (symmetry; apply Z.leb_le; lia).
+    replace (off <? off + (utf8_len c + byte_len r)) with true by (symmetry; apply Z.ltb_lt; lia). cbn [andb].
+    f_equal. replace (off + (utf8_len c + byte_len r)) with (off + utf8_len c + byte_len r) by lia. apply IH. lia.
+Qed.
+Lemma sub_from_skip p q off a b : off + byte_len p <= a -> sub_from (p ++ q) off a b = sub_from q (off + byte_len p) a b.
+Proof.
+  revert off. induction p as [|c r IH]; intros off H; cbn [app byte_len sub_from].
+  - f_equal. lia.
+  - pose proof (utf8_len_pos c). pose proof (byte_len_nonneg r). cbn [byte_len] in H.
+    replace (a <=? off) with false by (symmetry; apply Z.leb_gt; lia). cbn [andb].
+    rewrite IH by lia. f_equal. lia.
+Qed.
+Lemma substr_middle p m q : substr (p ++ m ++ q) (byte_len p) (byte_len p + byte_len m) = m.
+Proof. unfold substr. rewrite sub_from_skip by lia. cbn. apply sub_from_prefix. lia. Qed.
+Lemma substr_prefix_of p q : substr (p ++ q) 0 (byte_len p) = p.
+Proof. unfold substr. apply (sub_from_prefix p q 0 0). lia. Qed.
+(* a substring that ends inside the first part does not see the second part *)
+Lemma sub_from_app_l p q off a b : b <= off + byte_len p -> sub_from (p ++ q) off a b = sub_from p off a b.
+Proof.
+  revert off. induction p as [|c r IH]; intros off H; cbn [app byte_len sub_from] in *.
+  - apply sub_from_empty. lia.
+  - rewrite IH by lia. reflexivity.
+Qed.
+Lemma substr_app_l p q a b : b <= byte_len p -> substr (p ++ q) a b = substr p a b.
+Proof. intro H. unfold substr. apply sub_from_app_l. lia. Qed.
+(* a substring of the second part, addressed through the whole *)
+Lemma substr_app_r p q a b : 0 <= a -> substr (p ++ q) (a + byte_len p) (b + byte_len p) = substr q a b.
+Proof.
+  intro H. unfold substr. rewrite sub_from_skip by lia. cbn.
+  rewrite <- (sub_from_shift q 0 a b (byte_len p)). reflexivity.
+Qed.
+
+Lemma trim_start_suffix s : exists w, s = w ++ trim_start s.
+Proof.
+  induction s as [|c r IH]; cbn; [exists []; reflexivity|]. destruct (is_ws c).
+  - destruct IH as (w & E). exists (c :: w). cbn. f_equal. exact E.
+  - exists []. reflexivity.
+Qed.
+Lemma trim_end_prefix s : exists w, s = trim_end s ++ w.
+Proof.
+  unfold trim_end. destruct (trim_start_suffix (rev s)) as (w & E). exists (rev w).
+  rewrite <- rev_app_distr, <- E, rev_involutive. reflexivity.
+Qed.
+Lemma trim_end_nl s : trim_end (s ++ [10]) = trim_end s.
+Proof. unfold trim_end. rewrite rev_app_distr. cbn. reflexivity. Qed.
+
+Lemma read_line_0 s : read_line s 0 = Some (trim_start (trim_end (first_line s))).
+Proof.
+  unfold read_line, line_span, raw_line_span.
+  pose proof (count_lines_pos s).
+  replace ((0 <=? 0) && (0 <? count_lines s)) with true by (symmetry; apply andb_true_iff; split; [reflexivity|apply Z.ltb_lt; lia]).
+  cbn [Z.eqb]. destruct (nl_from_head s 0) as (tl & E). unfold nl_indices. rewrite E. rewrite nth_z_zero.
+  replace (Z.min (0 + byte_len (first_line s) + 1) (byte_len s)) with (byte_len (raw0 s)) by (rewrite raw0_len; lia).
+  assert (Hsub : substr s 0 (byte_len (raw0 s)) = raw0 s) by (rewrite (raw0_rest0 s) at 1; apply substr_prefix_of).
+  rewrite Hsub. clear Hsub.
+  set (l := raw0 s).
+  assert (Et : trim_end l = trim_end (first_line s)).
+  { unfold l. destruct (raw0_first_line s) as [-> | ->]; [reflexivity|apply trim_end_nl]. }
+  destruct (trim_end_prefix l) as (w & El). destruct (trim_start_suffix (trim_end l)) as (w' & Ec).
+  set (core := trim_start (trim_end l)) in *.
+  assert (Hl : byte_len l = byte_len w' + byte_len core + byte_len w).
+  { rewrite El at 1. rewrite byte_len_app. rewrite Ec at 1. rewrite byte_len_app. lia. }
+  assert (He : byte_len (trim_end l) = byte_len w' + byte_len core) by (rewrite Ec at 1; rewrite byte_len_app; reflexivity).
+  replace (byte_len l - (byte_len l - byte_len (trim_end l))) with (byte_len w' + byte_len core) by lia.
+  replace (0 + (byte_len (trim_end l) - byte_len core)) with (byte_len w') by lia.
+  assert (Es : s = w' ++ core ++ (w ++ rest0 s)).
+  { rewrite (raw0_rest0 s) at 1. fold l. rewrite El at 1. rewrite Ec at 1. rewrite <- !app_assoc. reflexivity. }
+  assert (Hfin : substr s (byte_len w') (byte_len w' + byte_len core) = core) by (rewrite Es at 1; apply substr_middle).
+  rewrite Hfin. unfold core. rewrite Et. reflexivity.
+Qed.
+
+Lemma first_line_app a b : first_line (a ++ [10] ++ b) = first_line a.
+Proof. induction a as [|c r IH]; cbn; [reflexivity|]. destruct (c =? 10); [reflexivity|]. f_equal. exact IH. Qed.
+
+(* the lines of a keep their text in a ++ "\n" ++ b *)
+Theorem lines_prefix a b k : 0 <= k < count_lines a -> read_line (a ++ [10] ++ b) k = read_line a k.
+Proof.
+  revert k. induction a as [|c r IH]; intros k Hk.
+  - change (count_lines []) with 1 in Hk. assert (k = 0) by lia. subst. rewrite !read_line_0. rewrite first_line_app. reflexivity.
+  - destruct (Z.eq_dec k 0) as [->|Hk0].
+    + rewrite !read_line_0, first_line_app. reflexivity.
+    + cbn [app]. destruct (Z.eq_dec c 10) as [->|Hc].
+      * rewrite count_lines_nl in Hk. replace k with (k - 1 + 1) by lia.
+        rewrite !read_line_nl by lia. apply IH. lia.
+      * rewrite (count_lines_other c r Hc) in Hk. rewrite !read_line_other by (auto; lia). apply IH. lia.
+Qed.
+
+(* ---------- rev_lookup_line on the linked line map ---------- *)
+Lemma index_of_bound x l i o : index_of x l i = Some o -> i <= o < i + zlen l.
+Proof.
+  revert i. induction l as [|y r IH]; intros i H; cbn in H; [discriminate|].
+  rewrite zlen_cons. pose proof (zlen_nonneg r). destruct (x =? y).
+  - inversion H; subst. lia.
+  - specialize (IH _ H). lia.
+Qed.
+Lemma index_of_in x l i o : index_of x l i = Some o -> In x l.
+Proof.
+  revert i. induction l as [|y r IH]; intros i H; cbn in H; [discriminate|].
+  destruct (x =? y) eqn:E; [apply Z.eqb_eq in E; subst; left; reflexivity|right; eauto].
+Qed.
+Lemma line_find_app m1 m2 addr :
+  line_find (m1 ++ m2) addr = match line_find m1 addr with Some x => Some x | None => line_find m2 addr end.
+Proof.
+  induction m1 as [|(k, ws) r IH]; cbn; [reflexivity|]. destruct (index_of addr ws 0); [reflexivity|exact IH].
+Qed.
+Lemma line_find_shift n m addr : line_find (shift_lines n m) addr = option_map (fun x => x + n) (line_find m addr).
+Proof.
+  induction m as [|(k, ws) r IH]; cbn; [reflexivity|]. destruct (index_of addr ws 0); cbn; [f_equal; lia|exact IH].
+Qed.
+Lemma line_find_bounds lo n bs m addr ln : lines_ok lo n bs m = true -> line_find m addr = Some ln ->
+  lo <= ln < n /\ covered bs addr = true.
+Proof.
+  revert lo. induction m as [|(k, ws) r IH]; cbn; intros lo H Hf; [discriminate|].
+  repeat (apply andb_true_iff in H; destruct H as (H & ?)).
+  apply Z.leb_le in H. apply Z.ltb_lt in H3. apply Z.leb_le in H2.
+  destruct (index_of addr ws 0) as [o|] eqn:E.
+  - inversion Hf; subst. pose proof (index_of_bound _ _ _ _ E). split; [lia|].
+    rewrite forallb_forall in H1. apply H1. eapply index_of_in; eauto.
+  - destruct (IH _ H0 Hf). split; [lia|assumption].
+Qed.
+Lemma line_find_uncovered lo n bs m addr : lines_ok lo n bs m = true -> covered bs addr = false -> line_find m addr = None.
+Proof.
+  intros H Hc. destruct (line_find m addr) as [ln|] eqn:E; [|reflexivity].
+  destruct (line_find_bounds _ _ _ _ _ _ H E). congruence.
+Qed.
